@@ -76,6 +76,8 @@ def op_line(op: dict) -> str:
     k = op["op"]
     if k == "enable":
         return f"enable {op['y']} {op['u']}"
+    if k == "cfguser":
+        return f"cfguser {op['y']} {op['u']} {op['p']} {1 if op['admin'] else 0}"
     if k == "llogin":
         return f"llogin {op['y']} {op['u']} {op['p']}"
     if k == "llogout":
@@ -266,8 +268,12 @@ class Impl:
 
     def apply(self, op: dict) -> str:
         k = op["op"]
-        if k in ("llogin", "llogout", "enable") and op["y"] >= len(self.nodes):
+        if k in ("llogin", "llogout", "enable", "cfguser") and op["y"] >= len(self.nodes):
             return "unreachable"
+        if k == "cfguser":   # how Node.__init__ / PrimaiteGame.from_config load the configured users
+            ok = self.nodes[op["y"]].user_manager.add_user(username=op["u"], password=op["p"], is_admin=op["admin"],
+                                                           bypass_can_perform_action=True)
+            return "success" if ok else "failure"
         if k == "llogin":
             return "success" if self.nodes[op["y"]].local_login(op["u"], op["p"]) else "failure"
         if k == "llogout":
@@ -431,7 +437,7 @@ def oracle(case: dict, snaps: List[dict], stats: List[str]) -> Optional[Tuple[di
             return ({"kind": "raised", "op": op["op"], "exc": st.split(":")[1]}, f"{op_line(op)} raised {st}", i)
         before, after = snaps[i], snaps[i + 1]
         k = op["op"]
-        if k in ("tick", "llogin", "llogout", "enable", "block"):
+        if k in ("tick", "llogin", "llogout", "enable", "block", "cfguser"):
             ok_chain, final, inner, llogins = False, None, {"op": k}, []
         else:
             ok_chain, final, inner, llogins = walk(op, before)
@@ -470,6 +476,10 @@ def oracle(case: dict, snaps: List[dict], stats: List[str]) -> Optional[Tuple[di
             if not any(adm and not d for _, _, d, adm in a["users"]):
                 return ({"kind": "no-enabled-admin", "op": k, "nested": nested},
                         f"op {i} {op_line(op)}: node {j} has no enabled admin", i)
+            # accounts are never removed, renamed, demoted or promoted: the old list is a prefix of the new one (name, admin flag)
+            if [(u, adm) for u, _, _, adm in a["users"]][:len(b["users"])] != [(u, adm) for u, _, _, adm in b["users"]]:
+                return ({"kind": "account-removed-or-flag-changed", "op": k}, f"op {i} {op_line(op)}: accounts of node {j} were "
+                        f"removed / reordered / their admin flag changed", i)
             # a password change ends every session of the user on that node (whoever asked for it, at whatever depth)
             for (u, pw, _, _) in a["users"]:
                 was = next((x for x in b["users"] if x[0] == u), None)
@@ -644,8 +654,10 @@ def gen_op(rng: Rng, cfg: dict, known: Dict[int, Dict[str, str]], malformed: boo
         return {"op": "adduser", "y": y, "u": rng.choice(USERS + ADMINS), "p": rng.choice(PASSWORDS), "admin": rng.chance(1, 2)}
     if r < 64:
         return {"op": "disable", "y": y, "u": u}
-    if r < 66:
+    if r < 65:
         return {"op": "enable", "y": y, "u": u}
+    if r < 66:
+        return {"op": "cfguser", "y": y, "u": rng.choice(USERS + ADMINS), "p": rng.choice(PASSWORDS), "admin": rng.chance(1, 2)}
     if r < 72:
         return {"op": "chpw", "y": y, "u": u, "old": p, "new": rng.choice(PASSWORDS)}
     if r < 76:
@@ -709,6 +721,9 @@ def track(known: Dict[int, Dict[str, str]], op: dict):
     """Optimistic bookkeeping of credentials so that later operations are mostly valid."""
     if op["op"] in ("tick", "llogin", "llogout", "enable", "block"):
         return
+    if op["op"] == "cfguser":
+        known.setdefault(op["y"], {"admin": "admin"}).setdefault(op["u"], op["p"])
+        return
     _, node, c, _ = walk_static(op)
     if c["op"] == "adduser":
         known.setdefault(node, {"admin": "admin"}).setdefault(c["u"], c["p"])
@@ -766,6 +781,11 @@ def admin_story(rng: Rng, cfg: dict, known: Dict[int, Dict[str, str]]) -> List[d
             ops.append({"op": "tick"})
     for u in order[::-1]:
         ops.append(attack(u))
+        if rng.chance(1, 3):   # the other editors: overwrite attempts and a password change of an administrator
+            v = rng.choice(admins)
+            ops.append(rng.choice([{"op": "adduser", "y": y, "u": v, "p": "pw1", "admin": False},
+                                   {"op": "cfguser", "y": y, "u": v, "p": "pw1", "admin": False},
+                                   {"op": "chpw", "y": y, "u": v, "old": known[y][v], "new": known[y][v]}]))
     return ops
 
 
@@ -838,6 +858,11 @@ def admin_alphabet() -> List[dict]:
         out.append({"op": "enable", "y": 1, "u": u})
     out.append({"op": "lcmd", "y": 1, "u": "adm2", "p": "pw2", "cmd": {"op": "disable", "u": "admin"}})
     out.append({"op": "adduser", "y": 1, "u": "adm3", "p": "pw1", "admin": True})
+    # every other editor aimed at the administrators: add_user with an existing name and is_admin=False (request and config API),
+    # a password change of an administrator
+    out.append({"op": "adduser", "y": 1, "u": "admin", "p": "pw1", "admin": False})
+    out.append({"op": "cfguser", "y": 1, "u": "adm2", "p": "pw1", "admin": False})
+    out.append({"op": "chpw", "y": 1, "u": "admin", "old": "admin", "new": "pw1"})
     return out
 
 
